@@ -58,6 +58,8 @@ def gen_function(world, contracts, externals, key):
         if e['kind'] == 'ptr' and prog.kind(e['elem']) != 'struct':
             env[p['name']] = LV('cell', (e['elem'], z3.Const('p_' + p['name'], I)), e['elem'])
     pkg = X.pkg
+    V.param_env = dict(env)
+    V.param_pkg = pkg
     ev0 = SpecEval(V, pkg, env, H0, old=H0)
     try:
         if c is not None:
@@ -129,6 +131,8 @@ def frame_obligations(V, X, c, ev0, H0, hp, rr, pkg):
             if hk not in allocs:
                 if hk[1].startswith('cell:') or hk[1] in ('arr',):
                     continue   # local temporaries (escape analysis artefacts) are not observable
+                if getattr(V, 'alloc_kinds', {}).get(hk[1]) == {False}:
+                    continue   # only stack locals of that type were allocated
                 V.add_obl('frame', newv == oldv, rr, label='alloc.' + name, text='allocates clause does not list ' + hk[1])
             continue
         if hk[0] == 'g' or (hk[0] == 'ghost' and len(hk) <= 3):
